@@ -27,24 +27,9 @@ def run_property(prop, tier):
     rep.rule = getattr(mod, "RULE", "")
     rep.assumptions = list(getattr(mod, "ASSUMPTIONS", []))
     # 1. proof obligations: translator + build + audit
-    st = common.proof_state()
-    ths = rep.use_theorems(st)
-    proof_broken = []
-    if not st["ok"]:
-        # which of this property's obligations are affected?
-        failing = common.failing_modules(st.get("build_log", ""))
-        mine = {t["module"] for t in ths}
-        tie = set(getattr(mod, "TIE_MODULES", []))
-        if st["stage_failed"] == "extract":
-            proof_broken.append("translator failed: " + "; ".join(m for m in st.get("extract", []) if "FAILED" in m))
-        hit = (failing & (mine | tie))
-        if hit or (st["stage_failed"] == "build" and not failing):
-            proof_broken.append("modules no longer build: %s" % sorted(hit or ["?"]))
-        unchecked = [t["name"] for t in ths if not t.get("checked")]
-        if unchecked and st["stage_failed"] in ("build", "audit-axioms"):
-            proof_broken.append("theorems not checked: %s" % unchecked[:8])
-        if st["stage_failed"] == "audit-grep":
-            proof_broken.append("forbidden construct in Lean sources: " + st["log"][-400:])
+    st = common.proof_state(prop, tuple(getattr(mod, "TIE_MODULES", [])))
+    rep.use_theorems(st)
+    proof_broken = list(st["broken"]) if not st["ok"] else []
     # 2. correspondence + direct oracle (the property module)
     mod.run(tier, rep, st)
     # 3. a broken obligation with no failing input found
